@@ -284,6 +284,10 @@ func CheckC08(c *C08Case, st *Stats) error {
 	if err != nil {
 		return err
 	}
+	// lookups before the copy is taken (whatever they build inside the lists belongs to the original alone)
+	if err := lookupsConsistent(orig, []any{"modified", 1}); err != nil {
+		return err
+	}
 	var clone any
 	if p, panicked := catch(func() { clone = cloneOf(orig) }); panicked {
 		return errf("Clone panicked: %v on %s", p, origSnap.Tree.Show())
@@ -345,6 +349,16 @@ func CheckC08(c *C08Case, st *Stats) error {
 		}
 		if !otherBefore.Same(otherAfter) {
 			return errf("mutation %d (%s %q on a container inside the %s) changed the %s:\n before: %s\n after:  %s", i, m.Op, m.Path, names[side], names[1-side], otherBefore.Tree.Show(), otherAfter.Tree.Show())
+		}
+		// ... and what the lists of both sides answer to lookups (the value just written included)
+		probes := []any{"modified"}
+		if m.V.K != KList && m.V.K != KObject {
+			probes = append(probes, specValue(m.V))
+		}
+		for sd := range sides {
+			if err := lookupsConsistent(sides[sd], probes); err != nil {
+				return errf("after mutation %d (%s on a container inside the %s), in the %s: %v", i, m.Op, names[side], names[sd], err)
+			}
 		}
 	}
 	if deep && nonRootHit {
